@@ -13,6 +13,10 @@ func init() {
 		o := newOracleRun("C09", seed)
 		for _, cs := range caseSeeds(seed, n, "C09") {
 			r := rand.New(rand.NewSource(cs))
+			if r.Intn(6) == 0 {
+				c09SharedNames(o, r, cs)
+				continue
+			}
 			f := allFeat()
 			f.Images, f.Replicas, f.PatchJSON = false, false, false
 			f.Dense = r.Intn(2) == 0
@@ -118,5 +122,94 @@ func init() {
 			}
 		}
 		return o.rep
+	}
+}
+
+// c09SharedNames: accounts that share a name (and an original namespace) but end up in different namespaces — one base
+// deployed by two overlays, or an upper layer with an account of its own beside a moved base.  Every role binding's
+// ServiceAccount subject names the namespace its OWN account lives in after the build: a subject moves with its
+// account, and only with its account.
+func c09SharedNames(o *oracleRun, r *rand.Rand, cs int64) {
+	fs := filesys.MakeFsInMemory()
+	subjNS := pickS(r, []string{"default", "default", ""})
+	sa := "apiVersion: v1\nkind: ServiceAccount\nmetadata:\n  name: sa\n"
+	subj := "- kind: ServiceAccount\n  name: sa\n"
+	if subjNS != "" {
+		subj += "  namespace: " + subjNS + "\n"
+	}
+	rb := func(name string) string {
+		return "apiVersion: rbac.authorization.k8s.io/v1\nkind: RoleBinding\nmetadata:\n  name: " + name + "\nroleRef:\n  apiGroup: rbac.authorization.k8s.io\n  kind: Role\n  name: r\nsubjects:\n" + subj
+	}
+	role := "apiVersion: rbac.authorization.k8s.io/v1\nkind: Role\nmetadata:\n  name: r\nrules: []\n"
+	dep := "apiVersion: apps/v1\nkind: Deployment\nmetadata:\n  name: d\nspec:\n  template:\n    spec:\n      serviceAccountName: sa\n      containers:\n      - name: c\n        image: i\n"
+	files := map[string]string{}
+	w := func(p, c string) { files[p] = c; fs.WriteFile(p, []byte(c)) }
+	scenario := r.Intn(2)
+	top := "/w/wrap"
+	// expected: binding name -> namespace its subject must name
+	want := map[string]string{}
+	if scenario == 0 {
+		// one base, two overlays with their own namespaces, one wrapper
+		w("/w/base/kustomization.yaml", "resources:\n- all.yaml\n")
+		w("/w/base/all.yaml", sa+"---\n"+role+"---\n"+rb("rb")+"---\n"+dep)
+		nsP, nsQ := "p", "q"
+		pre := func() string {
+			if r.Intn(3) == 0 {
+				return "namePrefix: " + pickS(r, []string{"x-", "y-"}) + "\n"
+			}
+			return ""
+		}
+		w("/w/ovp/kustomization.yaml", "resources:\n- ../base\nnamespace: "+nsP+"\n"+pre())
+		w("/w/ovq/kustomization.yaml", "resources:\n- ../base\nnamespace: "+nsQ+"\n"+pre())
+		w("/w/wrap/kustomization.yaml", "resources:\n- ../ovp\n- ../ovq\n")
+		want["@p"], want["@q"] = nsP, nsQ
+	} else {
+		// a base that moves its account, and an upper layer (no directive) with a same-named account and binding of its own
+		nsA := pickS(r, []string{"a", "prod"})
+		w("/w/base/kustomization.yaml", "resources:\n- all.yaml\nnamespace: "+nsA+"\n")
+		w("/w/base/all.yaml", sa+"---\n"+role+"---\n"+rb("rb-base")+"---\n"+dep)
+		w("/w/wrap/kustomization.yaml", "resources:\n- ../base\n- own.yaml\n")
+		w("/w/wrap/own.yaml", sa+"---\n"+rb("rb-own"))
+		want["rb-base"], want["rb-own"] = nsA, "default"
+	}
+	out, err, pnc := safeBuild(func() (string, error) { return runBuild(fs, top, nil) })
+	in := map[string]interface{}{"scenario": []string{"one-base-two-overlays", "upper-layer-own-account"}[scenario], "files": files}
+	if pnc != nil {
+		o.note("shared-names-panic", in)
+		return
+	}
+	if err != nil {
+		o.note("shared-names-err", in)
+		// nothing collides in either scenario: the resources end in different namespaces (or carry different names)
+		o.fail("independent-accounts-rejected", "accounts that share a name but live in different namespaces make the build fail: "+err.Error(), cs, in, err.Error(), nil)
+		return
+	}
+	o.note("shared-names-ok", in)
+	docs, _ := parseDocs(out)
+	for _, d := range docs {
+		if d["kind"] != "RoleBinding" {
+			continue
+		}
+		md, _ := d["metadata"].(map[string]interface{})
+		name, _ := md["name"].(string)
+		ns, _ := md["namespace"].(string)
+		exp, ok := want[name]
+		if !ok {
+			exp, ok = want["@"+ns]
+		}
+		if !ok {
+			continue
+		}
+		subs, _ := d["subjects"].([]interface{})
+		for _, s := range subs {
+			sm, _ := s.(map[string]interface{})
+			got, _ := sm["namespace"].(string)
+			if got == "" {
+				got = "default"
+			}
+			if sm["kind"] == "ServiceAccount" && got != exp {
+				o.fail("subject-namespace-stale", fmt.Sprintf("binding %s/%s: subject %v names namespace %q, its account lives in %q", ns, name, sm["name"], got, exp), cs, in, got, exp)
+			}
+		}
 	}
 }
